@@ -420,7 +420,7 @@ def cond_facts(cfg: CFG, extra_kill: Optional[Callable[[Node], Set[str]]] = None
         if node.kind == 'cond':
             if label in ('T', 'F'):
                 killed = kill(facts, mutated_bases(node.ast) | _walrus(node.ast))
-                return killed | {(norm(node.ast), label == 'T')}
+                return killed | {(cnorm(node.ast), label == 'T')}
             return facts
         if node.kind in ('stmt', 'for'):
             st = node.ast
@@ -487,6 +487,14 @@ def syntactic_facts(pm: Dict[int, ast.AST], node: ast.AST, stop: ast.AST) -> Set
     return facts
 
 
+def cnorm(e: ast.AST) -> str:
+    """Normalised source of a condition; isinstance(x, (C,)) is the same fact as isinstance(x, C)."""
+    if isinstance(e, ast.Call) and isinstance(e.func, ast.Name) and e.func.id == 'isinstance' and len(e.args) == 2 \
+            and isinstance(e.args[1], ast.Tuple) and len(e.args[1].elts) == 1:
+        return f'isinstance({norm(e.args[0])}, {norm(e.args[1].elts[0])})'
+    return norm(e)
+
+
 def _split(test: ast.AST, polarity: bool) -> Set[Fact]:
     """Atomic facts implied by test == polarity."""
     if isinstance(test, ast.UnaryOp) and isinstance(test.op, ast.Not):
@@ -503,7 +511,7 @@ def _split(test: ast.AST, polarity: bool) -> Set[Fact]:
                 out |= _split(v, False)
             return out
         return set()
-    return {(norm(test), polarity)}
+    return {(cnorm(test), polarity)}
 
 
 def facts_at(cfg: CFG, IN: Dict[int, FrozenSet[Fact]], pm: Dict[int, ast.AST], node: ast.AST) -> Set[Fact]:
